@@ -30,7 +30,7 @@ func init() {
 		return c, nil
 	})
 	xa := append([]string{
-		"IBC core's proof verification and ordered-channel bookkeeping are replaced by the harness Net shim; SendPacket, client status, channel lookups are the real ibc-go keepers",
+		"IBC is ibc-go's real core message server on both chains (handshakes, MsgRecvPacket, MsgAcknowledgement, MsgTimeout: client status, timeouts, sequences, commitments, acknowledgements, rollback are ibc-go's code); only Merkle proof verification is answered by a proof oracle that looks the claimed key up in the counterparty's actual store, and light-client updates are written as consensus states",
 		"an infraction on a consumer is reported through the exact keeper call the consumer's slashing / evidence modules make (SlashWithInfractionReason); CometBFT vote infos are not modelled",
 		"long waits (30 min, 1 h) are global: every chain lives through them and relayers keep the light clients fresh",
 	}, commonAssumptions...)
